@@ -180,6 +180,16 @@ func runRouter(tb *model.Table, hist []req) string {
 	r := tb.Opts.NewRouter()
 	model.Register(r, tb.Routes, func(d model.RouteDef) rux.HandlerFunc {
 		name := d.Name()
+		// what a handler answers is its own business: some routes answer 404 or 500 themselves (a resource that
+		// does not exist) - the request was resolved all the same, and the cache entry stays
+		switch d.Idx % 4 {
+		case 1:
+			return func(c *rux.Context) { c.AbortWithStatus(404); c.WriteString(name) }
+		case 2:
+			return func(c *rux.Context) { c.SetStatus(500); c.WriteString(name) }
+		case 3:
+			return func(c *rux.Context) { http.NotFound(c.Resp, c.Req); c.WriteString(name) }
+		}
 		return func(c *rux.Context) { c.WriteString(name) }
 	})
 	for i, q := range hist {
@@ -228,8 +238,14 @@ func runRouter(tb *model.Table, hist []req) string {
 		}
 		rec := httptest.NewRecorder()
 		r.ServeHTTP(rec, &http.Request{Method: q.method, URL: &url.URL{Path: q.path}, Header: http.Header{}})
-		if rec.Body.String() != rt.Name() {
+		if !strings.HasSuffix(rec.Body.String(), rt.Name()) {
 			return fmt.Sprintf("ServeHTTP after caching answers %q: %s", rec.Body.String(), ctx)
+		}
+		if keys3 := cache.VerifKeys(); len(keys3) == 0 || keys3[0] != want {
+			return fmt.Sprintf("after ServeHTTP (answered %d) the entry %q should be the most recent one, cache keys (recent first) are %q: %s", rec.Code, want, keys3, ctx)
+		}
+		if rec.Code != 200 {
+			ev.Class("resolved-request-answered-non-200-by-its-handler")
 		}
 	}
 	return ""
